@@ -14,22 +14,34 @@ def driver_args(tier, seed, phase):
 RULE = ("catalogue of boundary lengths x chunkings + seeded random streams of frames/garbage/injected read errors "
         "cut into random chunk sizes (incl. 0- and 1-byte reads), the two raw writers and PackTCPBuffer on lengths "
         "around 65535, and ServeTCP answering 16-64 concurrent queries of mixed sizes on one connection; "
+        "the DoQ client (transport.NewQuicDnsConn over an in-memory quic connection, harness/quicx), one exchange per case (ids doq:...): "
+        "a catalogue of malformed reply streams (FIN without data, one header byte, header only, every announced length 0..12, "
+        "body shorter than announced, garbage, stream reset or read timeout before / inside the header / inside the body / after a whole frame) "
+        "and whole frames of 13, 14, 512, 4096, 65534, 65535 bytes, served whole, 1 byte per read and with 0-byte reads, "
+        "+ seeded random reply streams (frames, garbage, frames cut short, injected failures; random read sizes); "
+        "a panic of the client is recovered per case and reported as a violation under the case id; "
         "a case is non-trivial when it has more than one segment, a 0/1-byte chunking, a boundary length "
-        "(0,1,11..14,65534..65536) or concurrent replies; distinct = distinct Gallina literal")
+        "(0,1,11..14,65534..65536) or concurrent replies (a DoQ case: anything but one whole frame of an ordinary size read in large pieces); distinct = distinct Gallina literal")
 ASSUMPTIONS = [
     "one net.Conn.Write call is delivered contiguously (Go runtime / kernel)",
     "io.ReadFull semantics as modelled by Model.Framing.read_full_aux (checked by the differential run)",
     "miekg/dns Pack is the reference packing for PackTCPBuffer cases",
+    "the DoQ cases see quic-go only through harness/quicx: Write delivers the bytes or fails, Close is the FIN of the send side, "
+    "Read blocks until the peer answered and ends with io.EOF, a reset or a deadline is a non-EOF read error, CancelRead unblocks Read",
 ]
 TRUSTED_BASE = [
     "hand-written model coq/Model/Framing.v tied to pkg/dnsutils/net_io.go, pkg/pool/msg_buf.go, "
     "pkg/upstream/transport/utils.go by differential execution (Judge.C16) and by the regenerated constants "
     "min_frame_len / max_msg_size* in Gen/Constants.v",
+    "harness/quicx (in-memory quic.Connection / quic.Stream); the DoQ client pkg/upstream/transport/conn_quic.go is judged by the same "
+    "reader model: an error exactly when Model.Framing.read_frame fails on the reply stream, otherwise that frame with the caller's id put back",
 ]
 LEVEL_TEXT = ("Theorems in coq/Properties/C16.v, for every message, every stream and every way of cutting it into reads: "
               "a framed message of 13..65535 bytes is read back byte-for-byte, the reader returns nothing but the announced "
               "bytes, oversize is refused, truncated/short/small frames are errors, whole frames in any order decode to the same "
               "messages. The model (Model/Framing.v) is run inside Coq on every case the Go driver observed on the real "
-              "readers/writers and the TCP server (Judge.C16.agree), and the size constants are regenerated from the source.")
+              "readers/writers, the TCP server and the DoQ client (Judge.C16.agree), and the size constants are regenerated from the source. "
+              "For the DoQ client the run also checks, case by case, that a damaged or truncated reply stream comes back as an error and not as a panic.")
 LEVEL_NOTE = ("Trusted: Coq kernel + vm_compute; hand-written model tied to the code by the differential run and Gen/Constants.v; "
-              "atomicity of one net.Conn.Write; io.ReadFull as modelled; miekg Pack as reference packing. No axioms.")
+              "atomicity of one net.Conn.Write; io.ReadFull as modelled; miekg Pack as reference packing; quic-go streams as faked by harness/quicx "
+              "(the DoQ client is tested against the model on sampled streams, it is not itself modelled beyond 'first frame of the stream, id restored'). No axioms.")
